@@ -277,7 +277,7 @@ class SrvExec(Exec):
             s.exit_hooks.append(lambda: _server.__dict__.pop('id', None))
         results = []
         rounds_info = []
-        server = Server(self.build_servlet(), capacity=cfg['capacity'])
+        server = self.make_server()
         et = threading.Thread(target=self.env, name='env')
         et.start()
         try:
@@ -288,6 +288,10 @@ class SrvExec(Exec):
         if cfg.get('ids'):
             self.metrics['ids_reused'] = alloc.reused
         return results, rounds_info
+
+    def make_server(self):
+        from mpservice.mpserver import Server
+        return Server(self.build_servlet(), capacity=self.cfg['capacity'])
 
     def run_rounds(self, server, results, rounds_info):
         cfg = self.cfg
@@ -470,6 +474,115 @@ class SrvExec(Exec):
                 return ('stream-wrong', f'stream yielded {got}, expected {exp}')
             return None
         return ('stream-raised', f'stream ended with {outs[-1] if outs else None}; yielded {outs[:-1]}')
+
+
+class ASrvExec(SrvExec):
+    """Same scenarios on AsyncServer: the body thread runs a virtual event loop; callers are tasks."""
+
+    def make_server(self):
+        from mpservice.mpserver import AsyncServer
+        return AsyncServer(self.build_servlet(), capacity=self.cfg['capacity'])
+
+    async def one_acall(self, server, spec):
+        from mpservice._common import TimeoutError as MPTimeout
+        from mpservice.mpserver import ServerBacklogFull
+        x, timeout, bp = spec
+        s = sched.S()
+        t0 = s.now
+        try:
+            y = await server.call(x, timeout=timeout, backpressure=bp)
+            return (x, norm_val(y), None, t0, s.now)
+        except MPTimeout:
+            return (x, ('TIMEOUT',), None, t0, s.now)
+        except ServerBacklogFull as e:
+            return (x, ('BACKLOGFULL', e.args[1] is None), None, t0, s.now)
+        except Exception as e:
+            tb = ''.join(traceback.format_exception(type(e), e, e.__traceback__))
+            if type(e).__name__ == 'EnsembleError':
+                self.ens_details[x] = norm_val(e.args[1]['y'])
+            return (x, norm_exc(e), tb, t0, s.now)
+
+    def run_rounds(self, server, results, rounds_info):
+        import asyncio
+        cfg = self.cfg
+        s = sched.S()
+
+        async def main():
+            for rnd in range(cfg.get('rounds', 1)):
+                res = {}
+                try:
+                    await server.__aenter__()
+                except Exception as e:
+                    rounds_info.append(dict(enter_exc=norm_exc(e), alive=self.live(), gather_alive=None, backlog=None))
+                    break
+                self.server = server
+                gather = server._gather_thread
+
+                async def caller(k, specs):
+                    out = []
+                    for spec in specs:
+                        out.append(await self.one_acall(server, spec))
+                    res[k] = out
+
+                async def streamer(st_cfg):
+                    out = []
+
+                    async def src():
+                        for x in st_cfg['xs']:
+                            yield x
+                    try:
+                        it = server.stream(src(), return_x=True, return_exceptions=st_cfg.get('rex', True),
+                                           timeout=st_cfg.get('timeout', 1000))
+                        async for x, y in it:
+                            out.append((x, norm_val(y)))
+                            if st_cfg.get('stop_after') is not None and len(out) >= st_cfg['stop_after']:
+                                break
+                        await it.aclose()
+                        out.append('END')
+                    except Exception as e:
+                        out.append(('RAISED', norm_exc(e)))
+                    res['stream'] = out
+
+                tasks = [asyncio.ensure_future(caller(k, specs)) for k, specs in enumerate(cfg.get('calls', []))]
+                if cfg.get('stream'):
+                    tasks.append(asyncio.ensure_future(streamer(cfg['stream'])))
+                await asyncio.gather(*tasks)
+                if cfg.get('late_call') is not None:
+                    res['late'] = [await self.one_acall(server, [cfg['late_call'], 1000, False])]
+                info = dict(enter_exc=None, gather_alive=gather.is_alive())
+                t_end = s.now + 50.0
+                while (self.waiting or len(server._uid_to_futures)) and s.now < t_end:
+                    await asyncio.sleep(0.5)
+                info['backlog'] = len(server._uid_to_futures)
+                await server.__aexit__(None, None, None)
+                self.server = None
+                info['alive'] = self.live()
+                results.append(res)
+                rounds_info.append(info)
+
+        asyncio.run(main())
+
+
+def async_server_codes():
+    import mpservice.mpserver._server as _server
+    codes = []
+    for f in (_server.AsyncServer._enqueue, _server.AsyncServer._wait_for_result, _server.AsyncServer._gather_output):
+        codes += sched.all_codes(f)
+    return codes
+
+
+class ASrvHarness(Harness):
+    name = 'asrv'
+    opts = dict(max_points=8000, timers='free', max_timer_fires=600)
+    exec_cls = ASrvExec
+
+    def setup(self):
+        from mc import vloop
+        vloop.install()
+        return async_server_codes()
+
+    def new(self, cfg):
+        return self.exec_cls(cfg)
 
 
 def server_codes(ensemble=False, worker=False, switch=False):
